@@ -198,12 +198,12 @@ func (in *inst) stmt(s ast.Stmt) []ast.Stmt {
 		}
 		switch lockCall(s.X) {
 		case "lock":
-			return []ast.Stmt{in.call("Yield", in.site(s.Pos(), "lock")), s, in.call("Depth", intlit(1))}
+			return []ast.Stmt{in.call("Yield", in.site(s.Pos(), "lock")), s}
 		case "unlock":
-			return []ast.Stmt{s, in.call("Depth", intlit(-1))}
+			return []ast.Stmt{s}
 		case "do":
 			in.funcLits(s.X)
-			return []ast.Stmt{in.call("Depth", intlit(1)), s, in.call("Depth", intlit(-1))}
+			return []ast.Stmt{in.call("Yield", in.site(s.Pos(), "once")), s}
 		}
 		in.funcLits(s.X)
 		return []ast.Stmt{s}
@@ -221,13 +221,7 @@ func (in *inst) stmt(s ast.Stmt) []ast.Stmt {
 		return []ast.Stmt{s}
 	case *ast.DeferStmt:
 		if lockCall(s.Call) == "unlock" {
-			in.used = true
-			body := &ast.BlockStmt{List: []ast.Stmt{
-				&ast.ExprStmt{X: s.Call},
-				in.call("Depth", intlit(-1)),
-			}}
-			return []ast.Stmt{&ast.DeferStmt{Call: &ast.CallExpr{
-				Fun: &ast.FuncLit{Type: &ast.FuncType{Params: &ast.FieldList{}}, Body: body}}}}
+			return []ast.Stmt{s}
 		}
 		if k := lockCall(s.Call); k != "" {
 			die("%s: unsupported deferred %s", in.fset.Position(s.Pos()), k)
@@ -405,7 +399,46 @@ func (in *inst) goStmt(s *ast.GoStmt) ast.Stmt {
 	return &ast.BlockStmt{List: pre}
 }
 
+// replaceSync substitutes the cooperative lock types for sync.Mutex,
+// sync.RWMutex and sync.Once wherever they are named, and keeps the sync
+// import used.
+func (in *inst) replaceSync(f *ast.File) {
+	importsSync := false
+	for _, im := range f.Imports {
+		if im.Path.Value == `"sync"` && im.Name == nil {
+			importsSync = true
+		}
+	}
+	if !importsSync {
+		return
+	}
+	n := 0
+	ast.Inspect(f, func(x ast.Node) bool {
+		se, ok := x.(*ast.SelectorExpr)
+		if !ok {
+			return true
+		}
+		id, ok := se.X.(*ast.Ident)
+		if !ok || id.Name != "sync" {
+			return true
+		}
+		switch se.Sel.Name {
+		case "Mutex", "RWMutex", "Once":
+			id.Name = simrtName
+			n++
+		}
+		return true
+	})
+	if n > 0 {
+		in.used = true
+		f.Decls = append(f.Decls, &ast.GenDecl{Tok: token.VAR, Specs: []ast.Spec{&ast.ValueSpec{
+			Names: []*ast.Ident{ast.NewIdent("_")},
+			Type:  &ast.SelectorExpr{X: ast.NewIdent("sync"), Sel: ast.NewIdent("Locker")}}}})
+	}
+}
+
 func (in *inst) fileDecls(f *ast.File) {
+	in.replaceSync(f)
 	for _, d := range f.Decls {
 		switch d := d.(type) {
 		case *ast.FuncDecl:
